@@ -34,7 +34,7 @@ COMPONENTS = {
 ASSUMPTIONS = ["call/return pairing is judged only when the callee left S where the call put it and did not overwrite the "
                "return frame", "RESET reports an unresolved branch and is not judged"]
 PROBES = ["cond_taken", "cond_not_taken", "uncond", "call", "ret_paired", "retf_paired", "reti_paired", "page_edge_code",
-          "irq_inside_callee", "indirect_jump", "ir"]
+          "irq_inside_callee", "indirect_jump", "ir", "space_end_code", "code_patched_in_place"]
 COND = {0x14: ("Z", 1), 0x15: ("Z", 0), 0x16: ("C", 1), 0x17: ("C", 0), 0x18: ("Z", 1), 0x19: ("Z", 1), 0x1A: ("Z", 0),
         0x1B: ("Z", 0), 0x1C: ("C", 1), 0x1D: ("C", 1), 0x1E: ("C", 0), 0x1F: ("C", 0)}
 CTRL_OPS = [0x02, 0x03, 0x04, 0x05, 0x06, 0x07, 0x10, 0x11, 0x12, 0x13, 0x14, 0x15, 0x16, 0x17, 0x18, 0x19, 0x1A, 0x1B, 0x1C,
@@ -117,12 +117,44 @@ def generate(batch: str, r: Rng, idx: int, tier: str) -> Dict[str, Any]:
         scn["imem"] = [[0xFB, r.choice([0x8F, 0x83, 0x8F, 0x81])], [0xFC, 0]]
         scn["kind"] = "machine"
         return scn
-    base = r.choice([0x01000, 0x0FFC0, 0x0FFE8, 0x1FFD0, 0x2FF00, 0xFFF00 - 0x400, 0x0FFF8])
-    code, starts, handler = _gen_cf_program(r.child("prog"), base, r.choice([4, 12, 30]))
+    # bases: ordinary, the last bytes of a 64 KiB page, and both ends of the 20-bit space (relative jumps there
+    # wrap modulo 2^20: backwards below 0x00000, forwards over 0xFFFFF)
+    base = r.choice([0x01000, 0x0FFC0, 0x0FFE8, 0x1FFD0, 0x2FF00, 0xFFF00 - 0x400, 0x0FFF8, 0x00000, 0xFFF00, 0xFFF60])
+    n = r.choice([4, 12, 30])
+    code, starts, handler = _gen_cf_program(r.child("prog"), base, n)
+    if base >= 0xFFF00 and base + len(code) > 0xFFFF0:
+        # keep the program below the interrupt vector at 0xFFFFA
+        code, starts, handler = _gen_cf_program(r.child("prog-short"), base, 4)
+        if base + len(code) > 0xFFFF0:
+            base = 0xFFF00 - 0x400
+            code, starts, handler = _gen_cf_program(r.child("prog-moved"), base, n)
     st = core.gen_state(r.child("state"))
     st["regs"]["PC"] = base
-    return {"kind": "core", "exec": "py-core", "base": base, "code": code, "starts": starts, "state": st,
-            "steps": r.choice([20, 60, 120]), "vector": handler}
+    scn = {"kind": "core", "exec": "py-core", "base": base, "code": code, "starts": starts, "state": st,
+           "steps": r.choice([20, 60, 120]), "vector": handler}
+    # code patched in place between two passes over the same emulator (a RAM jump table, a relocating loader):
+    # operands of control transfers are rewritten, the opcode bytes stay
+    if r.chance(1, 3):
+        rp = r.child("patch")
+        patches = []
+        for off in rp.shuffle(list(starts))[:12]:
+            b0 = code[off]
+            pre = b0 in core.PRES
+            op = code[off + 1] if pre and off + 1 < len(code) else b0
+            o = off + (1 if pre else 0)
+            if op in (0x02, 0x04, 0x14, 0x15, 0x16, 0x17) and o + 2 < len(code):
+                tgt = base + rp.choice(starts)
+                patches.append([o + 1, [tgt & 0xFF, (tgt >> 8) & 0xFF]])
+            elif op in (0x03, 0x05) and o + 3 < len(code):
+                tgt = base + rp.choice(starts)
+                patches.append([o + 1, [tgt & 0xFF, (tgt >> 8) & 0xFF, (tgt >> 16) & 0x0F]])
+            elif 0x12 <= op <= 0x1F and op not in (0x14, 0x15, 0x16, 0x17) and o + 1 < len(code):
+                patches.append([o + 1, [rp.choice([0, 1, 2, 3, 5, 8, rp.range(0, 16)])]])
+            if len(patches) >= 3:
+                break
+        if patches:
+            scn["patches"] = patches
+    return scn
 
 
 # ----------------------------------------------------------------------------------------
@@ -153,11 +185,31 @@ def execute(scn: Dict[str, Any]) -> Dict[str, Any]:
         bus.load(0xFFFFA, [v & 0xFF, (v >> 8) & 0xFF, (v >> 16) & 0xFF])
     lo, hi = scn["base"], scn["base"] + len(scn["code"]) - 1
     out: List[dict] = []
-    for _ in range(scn["steps"]):
+    passes = [scn["steps"]] + ([scn["steps"]] if scn.get("patches") else [])
+    for pno, nsteps in enumerate(passes):
+        if pno == 1:
+            if any(o.get("err") or o.get("info") is None or "info_error" in o for o in out):
+                break
+            # second pass over the same emulator object: operands rewritten through the bus, PC back at the start
+            for off, data in scn["patches"]:
+                for i, b in enumerate(data):
+                    bus.wr(scn["base"] + off + i, b)
+            emu.regs.set(R.PC, scn["base"])
+            emu.state.halted = False
+            out.append({"marker": "patched"})
+        _run_pass(emu, bus, R, lo, hi, nsteps, out)
+    return {"steps": out}
+
+
+def _run_pass(emu, bus, R, lo, hi, nsteps, out) -> None:
+    for _ in range(nsteps):
         pc = emu.regs.get(R.PC) & 0xFFFFF
         if not (lo <= pc <= hi) or emu.state.halted:
             break
         bs = [bus.rd(pc + i) for i in range(7)]
+        first = bs[1] if bs[0] in core.PRES else bs[0]
+        if first in core.BLOCK_OPS and emu.regs.get(R.I) > 0x400:
+            break           # cost bound: the Python core needs milliseconds per iteration of a block instruction
         fc, fz = emu.regs.get(R.FC), emu.regs.get(R.FZ)
         s_before = emu.regs.get(R.S)
         f_before = emu.regs.get(R.F)
@@ -180,7 +232,6 @@ def execute(scn: Dict[str, Any]) -> Dict[str, Any]:
                     "stack": [bus.rd(s_after + i) for i in range(5)]})
         if err or info is None:
             break
-    return {"steps": out}
 
 
 def _op_of(bs: List[int]):
@@ -258,7 +309,13 @@ def check(scn: Dict[str, Any], hist: Dict[str, Any]) -> List[Dict[str, Any]]:
         if scn["base"] & 0xFFFF > 0xFF00 or (scn["base"] + len(scn["code"])) >> 16 != scn["base"] >> 16:
             probe("page_edge_code")
         frames: List[dict] = []
+        if scn["base"] == 0 or scn["base"] >= 0xFFF00:
+            probe("space_end_code")
         for k, st in enumerate(hist["steps"]):
+            if st.get("marker") == "patched":
+                probe("code_patched_in_place")
+                frames.clear()
+                continue
             if "info_error" in st:
                 V("unexpected_exception", k, f"get_instruction_info raised {st['info_error']} on {_hex(st['bytes'])}")
                 break
@@ -291,8 +348,12 @@ def check(scn: Dict[str, Any], hist: Dict[str, Any]) -> List[Dict[str, Any]]:
                     frames.pop()
                     probe({0x06: "ret_paired", 0x07: "retf_paired", 0x01: "reti_paired"}[op])
                     exp_pc = fr["ret"] if op != 0x06 else ((pc & 0xF0000) | (fr["ret"] & 0xFFFF))
-                    if op == 0x06 and (pc & 0xF0000) != fr["page"]:
-                        pass        # near return executed from another page: the architecture resumes in the current page
+                    if op == 0x06 and ((pc & 0xF0000) != fr["page"] or (pc & 0xFFFF) == 0xFFFF):
+                        # near return executed from another page: the architecture resumes in the current page.  A RET
+                        # that is the last byte of a page is not judged either: "current page" is the page of the
+                        # instruction for CALL and of its successor for RET in this code base, and the property does not
+                        # say which the return should use
+                        pass
                     elif st["next"] != exp_pc:
                         V("call_return", k, f"return at {pc:#x} resumed at {st['next']:#x}, the call at step {fr['k']} "
                           f"expects {exp_pc:#x}", field="resume_pc", kind=f"{op:02X}")
@@ -372,15 +433,16 @@ def stats(scn: Dict[str, Any], hist: Dict[str, Any]) -> Dict[str, Any]:
         faults: Dict[str, int] = {"irq_inside_callee": probes.get("irq_inside_callee", 0)}
         return {"nontrivial": nontrivial, "sig": digest([scn["prog"]["image"], scn["ops"], scn["timer"]]), "faults": faults,
                 "probes": probes, "cycles": obs[-1][machine.O_CYC] if obs else 0, "boundaries": len(obs) - 1}
-    return {"nontrivial": nontrivial, "sig": digest([scn["code"], scn["base"], scn["state"]["regs"]]), "faults": {},
-            "probes": probes, "cycles": len(hist["steps"]), "boundaries": len(hist["steps"])}
+    return {"nontrivial": nontrivial, "sig": digest([scn["code"], scn["base"], scn["state"]["regs"], scn.get("patches")]),
+            "faults": {"code_patched_in_place": probes.get("code_patched_in_place", 0)}, "probes": probes, "cycles": len(hist["steps"]), "boundaries": len(hist["steps"])}
 
 
 def sample(scn: Dict[str, Any], hist: Dict[str, Any]) -> Dict[str, Any]:
     if scn["kind"] == "machine":
         return {"executor": scn["exec"], "timer": scn["timer"], "ops": scn["ops"][:8], "boundaries": scn["boundaries"]}
     return {"base": hex(scn["base"]), "code_hex": _hex(scn["code"][:40]),
-            "steps": [[hex(s["pc"]), _hex(s["bytes"][:4]), s.get("info"), hex(s.get("next", 0))] for s in hist["steps"][:8]]}
+            "steps": [[hex(s["pc"]), _hex(s["bytes"][:4]), s.get("info"), hex(s.get("next", 0))] for s in hist["steps"][:8]
+                      if "pc" in s]}
 
 
 def shrink(scn: Dict[str, Any]):
@@ -388,6 +450,15 @@ def shrink(scn: Dict[str, Any]):
         from . import c12
         yield from c12.shrink(scn)
         return
+    if scn.get("patches"):
+        c = copy.deepcopy(scn)
+        del c["patches"]
+        yield c
+        for i in range(len(scn["patches"])):
+            if len(scn["patches"]) > 1:
+                c = copy.deepcopy(scn)
+                del c["patches"][i]
+                yield c
     s = scn["steps"]
     for ns in (s // 2, s - 1):
         if 1 <= ns < s:
